@@ -151,7 +151,7 @@ Proof. exact aux_shared_only_if_equal. Qed.
 Print Assumptions C17_aux_shared_only_if_equal.
 
 Theorem C17_dimcoord_shared_only_if_equal :
-  forall m ax k c s nv nd s', write_dimcoord m ax k c s = ((nv, nd), s') ->
+  forall m used ax k c s nv nd s', write_dimcoord m used ax k c s = ((nv, nd), s') ->
   (exists e, In e (w_seen s) /\ e_ncvar e = nv /\ content_eqb false c (e_c e) = true /\ s' = s)
   \/ (nd = nv /\ In {| e_c := c; e_ncvar := nv; e_ncdims := [nv] |} (w_seen s')).
 Proof. exact dimcoord_shared_only_if_equal. Qed.
